@@ -157,7 +157,7 @@ fn main() {
         cases.push(("gate-fixed".into(), gate::all_fixed()));
         let focus = args.focus.clone().unwrap_or_default();
         let only = |k: &str| focus.is_empty() || !["authz", "gate", "nonint", "preserve"].iter().any(|m| focus.contains(m)) || focus.contains(k);
-        let budgets: [(&str, u64, u64); 4] = [("authz", 700, 40000), ("gate", 60, 2000), ("nonint", 36, 1500), ("preserve", 14, 500)];
+        let budgets: [(&str, u64, u64); 4] = [("authz", 480, 20000), ("gate", 60, 2000), ("nonint", 64, 2500), ("preserve", 30, 800)];
         for (kind, q, t) in budgets {
             if !only(kind) { continue; }
             for i in 0..args.budget(q, t) {
@@ -174,12 +174,24 @@ fn main() {
         }
     }
 
+    if let Ok(which) = std::env::var("VH_C19_DUMP") {
+        for (name, ops) in &cases { if *name == which { println!("{}", ops.join("\n")); } }
+        return;
+    }
     let mut samples_by_mode = std::collections::BTreeSet::new();
+    // every failing call shape (key) is reported once, shrunk; repeats are counted in the histogram
+    let mut reported_keys = std::collections::BTreeSet::new();
     for (name, ops) in &cases {
+        let t_case = std::time::Instant::now();
         let out = match run_case(&rt, ops, &mut model) {
             Ok(o) => o,
             Err(e) => { rep.hit("case_error"); if rep.notes.len() < 20 { rep.notes.push(format!("{name}: case could not run: {e}")); } continue; }
         };
+        {
+            let mode = ops.first().and_then(|l| l.strip_prefix("mode ")).unwrap_or("?");
+            let e = rep.measured.entry(format!("seconds_in_{mode}_cases")).or_insert(json!(0.0));
+            *e = json!(((e.as_f64().unwrap_or(0.0) + t_case.elapsed().as_secs_f64()) * 1000.0).round() / 1000.0);
+        }
         for h in &out.hits { rep.hit(h); }
         for (k, v) in &out.measured { let e = rep.measured.entry(k.clone()).or_insert(json!(0.0)); *e = json!(e.as_f64().unwrap_or(0.0) + v); }
         rep.model_compared += out.compared;
@@ -191,6 +203,7 @@ fn main() {
         let mut seen = std::collections::BTreeSet::new();
         for (key, what, ctx, expected, observed) in out.failures {
             if !seen.insert(key.clone()) { continue; }
+            if args.replay.is_none() && !reported_keys.insert(key.clone()) { rep.hit(&format!("oracle-failure-repeat:{key}")); continue; }
             let small = if args.replay.is_some() || key == "panic" { ctx.clone() } else {
                 let head = ctx[0].clone();
                 let k2 = key.clone();
